@@ -1232,11 +1232,60 @@ func (bp *boundsProver) indexMapLemma(idx, seq ssa.Value, at ssa.Instruction) bo
 		}
 		m, seq, at = args[im], args[is], site
 	}
+	if ld, isLd := m.(*ssa.UnOp); isLd && ld.Op == token.MUL {
+		if fa, isFA := ld.X.(*ssa.FieldAddr); isFA {
+			return bp.indexMapLemmaField(fa, seq, at)
+		}
+	}
 	mk, ok := m.(*ssa.MakeMap)
 	if !ok {
 		return false
 	}
 	fn := mk.Parent()
+	// the map was filled by ranging over the very sequence that is indexed: every stored value is an index of a
+	// `for i := range seq` (seq is one SSA value: its length cannot have changed in between)
+	{
+		n, all := 0, true
+		for _, b := range fn.Blocks {
+			for _, in := range b.Instrs {
+				mu, isMU := in.(*ssa.MapUpdate)
+				if !isMU || mu.Map != m {
+					continue
+				}
+				n++
+				if r, _ := isRangeIndexOver(mu.Value, seq); !r {
+					all = false
+				}
+			}
+		}
+		if n > 0 && all && !hasDelete(fn, m) {
+			// the map does not leave the function before the lookup other than as a read-only argument: updates
+			// elsewhere would be through a parameter of a callee
+			escapes := false
+			for _, r := range *mk.Referrers() {
+				switch x := r.(type) {
+				case *ssa.MapUpdate, *ssa.Lookup, *ssa.Range, *ssa.DebugRef:
+				case *ssa.Call:
+					if !isBuiltin(x, "len") {
+						if cal := x.Call.StaticCallee(); cal == nil || !bp.c.P.isModuleFn(cal) {
+							escapes = true
+						} else {
+							for i, a := range x.Call.Args {
+								if a == m && i < len(cal.Params) && (hasMapUpdate(cal, cal.Params[i]) || hasDelete(cal, cal.Params[i])) {
+									escapes = true
+								}
+							}
+						}
+					}
+				default:
+					escapes = true
+				}
+			}
+			if !escapes {
+				return true
+			}
+		}
+	}
 	// the slice variable's append chain
 	chain := map[ssa.Value]bool{}
 	var grow func(v ssa.Value, d int) bool
@@ -1318,6 +1367,168 @@ func (bp *boundsProver) indexMapLemma(idx, seq ssa.Value, at ssa.Instruction) bo
 	}
 	// no other use of the map that could change it (delete, escape)
 	return n > 0 && !hasDelete(fn, m)
+}
+
+// indexMapLemmaField: the index map is kept in an unexported field of a bookkeeping object (only ever made fresh by
+// the module) and filled by a method `record(.., index)`; every value ever stored in it is, at the call that passes it,
+// len(s) immediately followed by s = append(s, one element), inside the loop that builds s; the sequence indexed is
+// the value of s after that loop, handed to the function of the lookup by its single call site. Then 0 <= idx < len(seq).
+func (bp *boundsProver) indexMapLemmaField(fa *ssa.FieldAddr, seq ssa.Value, at ssa.Instruction) bool {
+	p := bp.c.P
+	vals, ok := p.unexportedFieldStores(fa)
+	if !ok || len(vals) == 0 {
+		return false
+	}
+	for _, v := range vals {
+		if _, isMk := v.(*ssa.MakeMap); !isMk {
+			return false
+		}
+	}
+	key := typeName(fa.X.Type()) + "." + fieldName(fa.X.Type(), fa.Field)
+	sameField := func(v ssa.Value) bool {
+		ld, ok := v.(*ssa.UnOp)
+		if !ok || ld.Op != token.MUL {
+			return false
+		}
+		f2, ok := ld.X.(*ssa.FieldAddr)
+		return ok && typeName(f2.X.Type())+"."+fieldName(f2.X.Type(), f2.Field) == key
+	}
+	// the sequence as the function that builds it sees it
+	seqFn := at.Parent()
+	if ps, isPS := seq.(*ssa.Parameter); isPS {
+		callers := p.Callers(ps.Parent())
+		is := paramIndex(ps)
+		if len(callers) != 1 || is < 0 {
+			return false
+		}
+		site, isInstr := callers[0].Site.(ssa.Instruction)
+		args := callers[0].Site.Common().Args
+		if !isInstr || is >= len(args) {
+			return false
+		}
+		seq, at, seqFn = args[is], site, callers[0].Caller
+	}
+	// every update of the map, as a (block, position, value) in seqFn
+	type usite struct {
+		b   *ssa.BasicBlock
+		i   int
+		val ssa.Value
+	}
+	var sites []usite
+	posOf := func(in ssa.Instruction) int {
+		for i, x := range in.Block().Instrs {
+			if x == in {
+				return i
+			}
+		}
+		return -1
+	}
+	for _, g := range p.ModFns {
+		for _, b := range g.Blocks {
+			for _, in := range b.Instrs {
+				switch x := in.(type) {
+				case *ssa.Call:
+					if isBuiltin(x, "delete") && len(x.Call.Args) > 0 && sameField(x.Call.Args[0]) {
+						return false
+					}
+				case *ssa.MapUpdate:
+					if !sameField(x.Map) {
+						continue
+					}
+					if prm, isPrm := x.Value.(*ssa.Parameter); isPrm && g != seqFn {
+						k := paramIndex(prm)
+						callers := p.Callers(g)
+						if k < 0 || len(callers) == 0 {
+							return false
+						}
+						for _, e := range callers {
+							site, isInstr := e.Site.(ssa.Instruction)
+							args := e.Site.Common().Args
+							if !isInstr || e.Caller != seqFn || k >= len(args) {
+								return false
+							}
+							sites = append(sites, usite{site.Block(), posOf(site), args[k]})
+						}
+						continue
+					}
+					if g != seqFn {
+						return false
+					}
+					sites = append(sites, usite{b, posOf(x), x.Value})
+				}
+			}
+		}
+	}
+	if len(sites) == 0 {
+		return false
+	}
+	// the append chain of the sequence
+	chain := map[ssa.Value]bool{}
+	var grow func(v ssa.Value, d int) bool
+	grow = func(v ssa.Value, d int) bool {
+		if chain[v] {
+			return true
+		}
+		if d > 20 {
+			return false
+		}
+		switch x := v.(type) {
+		case *ssa.Const:
+			if x.Value == nil {
+				chain[v] = true
+				return true
+			}
+		case *ssa.Phi:
+			chain[v] = true
+			for _, ed := range x.Edges {
+				if !grow(ed, d+1) {
+					return false
+				}
+			}
+			return true
+		case *ssa.Call:
+			if isBuiltin(x, "append") {
+				chain[v] = true
+				return grow(x.Call.Args[0], d+1)
+			}
+		case *ssa.MakeSlice:
+			chain[v] = true
+			return true
+		}
+		return false
+	}
+	seqPhi, isPhi := seq.(*ssa.Phi)
+	if !isPhi || !grow(seq, 0) {
+		return false
+	}
+	var loop *Loop
+	for _, l := range naturalLoops(seqFn) {
+		if l.Header == seqPhi.Block() {
+			loop = l
+		}
+	}
+	if loop == nil || loop.Blocks[at.Block()] {
+		return false
+	}
+	for _, us := range sites {
+		if us.i < 0 || !loop.Blocks[us.b] {
+			return false
+		}
+		s0, ok := lenOf(us.val)
+		if !ok || !chain[s0] {
+			return false
+		}
+		found := false
+		for _, in2 := range us.b.Instrs[us.i+1:] {
+			if call, ok := in2.(*ssa.Call); ok && isBuiltin(call, "append") && call.Call.Args[0] == s0 && chain[call] {
+				found = true
+			}
+		}
+		if !found {
+			return false
+		}
+	}
+	return true
 }
 
 // sortClosureIndex: f is the `less` closure passed to sort.Slice(x, less), seq is a load of the captured x,
